@@ -28,7 +28,7 @@ import math
 
 from hypothesis import strategies as st
 
-from vf import gen
+from vf import failing, gen
 from vf.core import Violation
 from vf.osk import IS_TM, call_kwargs, eff_limit, eff_tau, guarded, mk_model, outcome_values, vals
 from vf.refmodel import compare, reference
@@ -50,7 +50,8 @@ class OracleLeague:
     def __init__(self, first, ctx):
         self.cfg = first["cfg"]
         self.ctx = ctx
-        self.model = mk_model(self.cfg)
+        self.model, self.trip = failing.tripwire_model(self.cfg)
+        self.n_failed = 0
         self.players = [self.model.rating(p[0], p[1], name=f"p{i}") for i, p in enumerate(first["players"])]
         self.ids = [p.id for p in self.players]
         self.names = [p.name for p in self.players]
@@ -91,7 +92,7 @@ class OracleLeague:
 
     def _in_domain(self, r):
         beta = self.cfg["beta"]
-        return isinstance(r.sigma, float) and isinstance(r.mu, float) and math.isfinite(r.mu) and math.isfinite(r.sigma) \
+        return isinstance(r.sigma, (int, float)) and not isinstance(r.sigma, bool) and isinstance(r.mu, (int, float)) and not isinstance(r.mu, bool) and math.isfinite(r.mu) and math.isfinite(r.sigma) \
             and 1e-4 * beta <= r.sigma <= 10 * beta and abs(r.mu) <= 20 * beta
 
     def _synthetic_case(self, prior, call, got):
@@ -105,6 +106,16 @@ class OracleLeague:
         op = step["op"]
         if op == "predict":
             return self._predict(step)
+        if op == "fail":
+            # a call on throw-away ratings through the league's model that does not complete normally (vf/failing.py): nothing is asserted
+            # about it; the valid games that FOLLOW are judged as always
+            what = failing.run_failing(self.model, step, self.trip)
+            self.n_failed += 1
+            lab = "failed-call:" + step["kind"] + ":" + what.split(":")[0]
+            if lab not in self.labels:
+                self.labels.append(lab)
+            self.ctx.called()
+            return
         if op == "replay":
             if self.last is None:
                 return
@@ -162,7 +173,7 @@ class OracleLeague:
         if "total" in orc:
             for a, t in enumerate(got):
                 for b, (m, s) in enumerate(t):
-                    if not (isinstance(m, float) and isinstance(s, float) and math.isfinite(m) and math.isfinite(s)):
+                    if not (isinstance(m, (int, float)) and not isinstance(m, bool) and isinstance(s, (int, float)) and not isinstance(s, bool) and math.isfinite(m) and math.isfinite(s)):
                         raise Violation("history:nonfinite", f"{where}: result[{a}][{b}] = ({m!r}, {s!r})")
 
         case = self._synthetic_case(prior, call, got)
@@ -323,6 +334,7 @@ def _predict_rule(h):
 
 
 OracleLeague.RULES = {
+    "failed_call": lambda h: failing.failing_specs(h.cfg),
     "play_two": _play_rule(2, 2),
     "play_multi": _play_rule(3, 6),
     "play_any": _play_rule(2, 6),
@@ -366,7 +378,8 @@ class TwinLeague:
 
     # -- to be specialised ---------------------------------------------------------------------------
     def make_models(self, first):
-        return [mk_model(self.cfg), mk_model(self.cfg)]
+        m, self.trip = failing.tripwire_model(self.cfg)
+        return [mk_model(self.cfg), m]
 
     def side_calls(self, step):
         """-> [(model, call) for side A, (model, call) for side B]"""
@@ -404,6 +417,14 @@ class TwinLeague:
         return [i for i in range(len(self.games)) if i not in self.retired]
 
     def apply(self, step):
+        if step["op"] == "fail":
+            # side B's long-lived model goes through a call that does not complete normally (throw-away ratings); side A never does
+            what = failing.run_failing(self.models[1], step, getattr(self, "trip", None))
+            lab = "failed-call:" + step["kind"] + ":" + what.split(":")[0]
+            if lab not in self.labels:
+                self.labels.append(lab)
+            self.ctx.called()
+            return
         teams_idx = step["teams"]
         if any(i in self.retired for t in teams_idx for i in t):
             return
@@ -462,5 +483,5 @@ def _twin_play(lo, hi):
 
 def twin_class(base, name, **attrs):
     cls = type(name, (base,), attrs)
-    cls.RULES = {"play_two": _twin_play(2, 2), "play_multi": _twin_play(2, 5)}
+    cls.RULES = {"play_two": _twin_play(2, 2), "play_multi": _twin_play(2, 5), "failed_call_on_side_b": lambda h: failing.failing_specs(h.cfg)}
     return cls
